@@ -13,7 +13,11 @@ import (
 func init() {
 	props["C13"] = func(r *Report) {
 		c13(r)
-		r.Guard("C13.R7", "every lock taken is released on every exit: MultiError and container locks", func() { lockPairRule(r, "", "verify", "fifo", "filter", "martianhttp") })
+		r.Guard("C13.R7", "every lock taken is released on every exit: MultiError and container locks", func() {
+			lockPairRule(r, "", "verify", "fifo", "filter", "martianhttp")
+			guardedFieldsRule(r, "fifo", "Group", "reqmu", []string{"reqmods"}, "a verification query or reset walks the child list while it is being changed")
+			guardedFieldsRule(r, "fifo", "Group", "resmu", []string{"resmods"}, "a verification query or reset walks the child list while it is being changed")
+		})
 	}
 	floors["C13"] = map[string]int{"C13.R1": 40, "C13.R2": 12, "C13.R3": 5, "C13.R4": 8, "C13.R5": 8, "C13.R6": 16, "C13.R7": 1}
 }
